@@ -845,3 +845,77 @@ def sym_bytes(x=b"", *a):
     if _real_isinstance(x, (list, tuple)) and any(is_sym(e) for e in x):
         return SymBytes(x)
     return _real_bytes(x, *a)
+
+
+class SymList:
+    """A list of SYMBOLIC LENGTH with integer elements: a z3 array Int -> Int plus a length term.  Supports what the loops under
+    contract do to their accumulators: append, element reads with symbolic indices (Python semantics: negative indices count from
+    the end, out of range raises IndexError).  len() needs the `sym_len` shim (CPython insists on a machine int from __len__);
+    iteration and slicing are unsupported (-> UNDECIDED, never a verdict)."""
+
+    def __init__(self, arr, n):
+        self.arr = arr
+        self.n = term(n)
+
+    def append(self, v):
+        if not (is_sym(v) or _real_isinstance(v, int)):
+            raise Unsupported(f"SymList.append of {type(v).__name__}")
+        self.arr = z3.Store(self.arr, self.n, term(v))
+        self.n = self.n + 1
+
+    def __getitem__(self, i):
+        if _real_isinstance(i, slice):
+            raise Unsupported("slice of a symbolic-length list")
+        it = term(i)
+        c = cur()
+        if c.decide(it < 0):
+            it = it + self.n
+        if not c.decide(z3.And(it >= 0, it < self.n)):
+            raise IndexError("list index out of range")
+        return SymInt(z3.Select(self.arr, it))
+
+    def __len__(self):
+        raise Unsupported("len() of a symbolic-length list without the sym_len shim")
+
+    def __iter__(self):
+        raise Unsupported("iteration over a symbolic-length list")
+
+    def __deepcopy__(self, memo):
+        return SymList(self.arr, self.n)
+
+    __hash__ = None
+
+
+def sym_len(x):
+    if _real_isinstance(x, SymList):
+        return SymInt(x.n)
+    n = getattr(x, "sym_length", None)
+    if n is not None:
+        return n
+    return len(x)
+
+
+def seq_view(x):
+    """(z3 array, z3 length) of a SymList or of a concrete list of ints / SymInts."""
+    if _real_isinstance(x, SymList):
+        return x.arr, x.n
+    if _real_isinstance(x, list):
+        a = z3.K(z3.IntSort(), z3.IntVal(0))
+        for i, v in enumerate(x):
+            if not (is_sym(v) or _real_isinstance(v, int)):
+                raise Unsupported(f"sequence element of type {type(v).__name__}")
+            a = z3.Store(a, i, term(v))
+        return a, z3.IntVal(len(x))
+    raise Unsupported(f"not a list: {type(x).__name__}")
+
+
+class All:
+    """forall i in [lo, hi): body(i).  Used WITHOUT quantifiers: a hypothesis is instantiated explicitly (`at`), a goal is proved for a
+    fresh, unconstrained index (skolemisation).  Both are sound; the instantiation points are proof hints listed in the contract."""
+
+    def __init__(self, lo, hi, body):
+        self.lo, self.hi, self.body = term(lo), term(hi), body
+
+    def at(self, t):
+        t = term(t)
+        return z3.Implies(z3.And(self.lo <= t, t < self.hi), self.body(t))
